@@ -105,6 +105,12 @@ fn main() {
         Some("gen") => gen::main(&args[2..]),
         Some("search") => search::main(&args[2..]),
         Some("replay") => search::replay(&args[2..]),
+        Some("gen-hand") => {
+            let suite = args.get(2).map(|s| s.as_str()).unwrap_or("");
+            let tier = args.get(3).map(|s| s.as_str()).unwrap_or("quick");
+            let seed: u64 = args.get(4).and_then(|s| s.parse().ok()).unwrap_or(1);
+            hand::gen(suite, tier, seed);
+        }
         _ => {
             eprintln!("usage: harness impl | gen <suite> <tier> <seed> <signatures.json> | search <prop> <tier> <seed> <outdir>");
             std::process::exit(2);
